@@ -50,8 +50,9 @@ type pgFataler interface {
 var pgAlphabet = []byte{0x00, 0x01, 0x10, 0x11, 0xf0, 0xff}
 
 // pgValLens are the hostile value lengths: tiny values give embedded (<32 byte)
-// leaves, 31/32/33 sit on the embedding boundary, 20 is the upstream fuzzer's size.
-var pgValLens = []int{1, 1, 1, 2, 5, 20, 20, 31, 32, 33, 40}
+// leaves, 24..30 make leaf encodings of exactly 31/32/33 bytes for short key remainders
+// (the embedded/hashed boundary), 20 is the upstream fuzzer's size.
+var pgValLens = []int{1, 1, 1, 2, 5, 20, 20, 24, 25, 26, 27, 28, 29, 30, 31, 32, 33, 40}
 
 // pgKeyClasses are the key spaces; see pgDrawKeys.
 var pgKeyClasses = []string{"k1few", "k1dense", "k2alpha", "k2rand", "k4", "k32", "k32shared", "single"}
